@@ -1,8 +1,175 @@
-(* C12 stub: replaced below *)
-From Coq Require Import String List Bool.
-From V Require Import Model.Universe Model.Group Gen.Universes.
-Import ListNotations.
+(* C12 -- Dimension groups are dependency-closed sets obeying lattice laws.
+   Statements only; every proof is `exact <lemma>` from Proofs/GroupProofs.v (generic: ANY universe u with
+   wf_universe u = true, ANY name lists, unbounded) or Proofs/GroupProofsShipped.v (the shipped universes of
+   Gen/Universes.v, REGENERATED from /repo's dimensions.yaml + old_dimensions/*.yaml on every run).
 
+   Vocabulary (Proofs/GroupProofs.v):
+     known u d   := In d (names_of u)
+     closed u T  := forall d e, In d T -> find_elem u d = Some e -> incl (deps e) T     (deps = required ++ implied)
+     same a b    := forall x, In x a <-> In x b                                         (equal as sets) *)
+From Coq Require Import String List Bool Arith.
+From V Require Import Model.Universe Model.Group Gen.Universes Proofs.GroupProofs Proofs.GroupProofsShipped.
+Import ListNotations.
+Open Scope string_scope.
+Open Scope list_scope.
+
+(* ---- closure: the least closed superset; total on known names (the fuel never runs out) ---- *)
+Theorem closure_least : forall u l, wf_universe u = true -> incl l (names_of u) ->
+  exists C, closure u l = GOk C /\ incl l C /\ closed u C /\ (forall T, closed u T -> incl l T -> incl C T).
+Proof. exact closure_least_p. Qed.
+Print Assumptions closure_least.
+
+Theorem closure_rejects_unknown : forall u l C, closure u l = GOk C -> incl l (names_of u).
+Proof. exact closure_known. Qed.
+Print Assumptions closure_rejects_unknown.
+
+Theorem closure_idem : forall u l C, wf_universe u = true -> closure u l = GOk C -> closure u C = GOk C.
+Proof. exact closure_idem. Qed.
+Print Assumptions closure_idem.
+
+Theorem closure_mono : forall u l1 l2 C1 C2,
+  closure u l1 = GOk C1 -> closure u l2 = GOk C2 -> incl l1 l2 -> incl C1 C2.
+Proof. exact closure_mono. Qed.
+Print Assumptions closure_mono.
+
+(* ---- the group: defined for all known names, is that closure, and is the same object however spelled ---- *)
+Theorem mkgroup_total : forall u l, wf_universe u = true -> incl l (names_of u) -> exists G, mkgroup u l = GOk G.
+Proof. exact mkgroup_total. Qed.
+Print Assumptions mkgroup_total.
+
+Theorem group_is_least_closed_superset : forall u l G, mkgroup u l = GOk G ->
+  incl l (gnames G) /\ closed u (gnames G) /\ (forall T, closed u T -> incl l T -> incl (gnames G) T)
+  /\ G = group_of_names u (gnames G).
+Proof. exact group_is_closure_p. Qed.
+Print Assumptions group_is_least_closed_superset.
+
+(* order, duplicates, redundant members of the input do not matter: the SAME group (all seven fields) *)
+Theorem group_canonical : forall u l1 l2 G, wf_universe u = true -> same l1 l2 ->
+  mkgroup u l1 = GOk G -> mkgroup u l2 = GOk G.
+Proof. exact group_canonical_p. Qed.
+Print Assumptions group_canonical.
+
+Theorem group_names_in_universe_order : forall u l G, mkgroup u l = GOk G -> sort_names u (gnames G) = gnames G.
+Proof. exact group_sorted. Qed.
+Print Assumptions group_names_in_universe_order.
+
+Theorem group_names_reproduce_group : forall u l G, wf_universe u = true -> mkgroup u l = GOk G ->
+  closure u (gnames G) = GOk (gnames G).
+Proof. exact group_names_closure. Qed.
+Print Assumptions group_names_reproduce_group.
+
+(* ---- required / implied ---- *)
+Theorem req_impl_partition : forall u l G d, mkgroup u l = GOk G ->
+  (In d (gnames G) <-> In d (grequired G) \/ In d (gimplied G)) /\ ~ (In d (grequired G) /\ In d (gimplied G)).
+Proof. exact partition_p. Qed.
+Print Assumptions req_impl_partition.
+
+Theorem required_char : forall u l G d, mkgroup u l = GOk G ->
+  (In d (grequired G) <->
+   In d (gnames G) /\ forall d2 e2, In d2 (gnames G) -> find_elem u d2 = Some e2 -> ~ In d (eimp e2)).
+Proof. exact required_char_p. Qed.
+Print Assumptions required_char.
+
+Theorem required_generates : forall u l G, wf_universe u = true -> mkgroup u l = GOk G ->
+  closure u (grequired G) = GOk (gnames G).
+Proof. exact required_generates. Qed.
+Print Assumptions required_generates.
+
+(* ---- names respect the dependency order: whatever d depends on stands before d ---- *)
+Theorem names_topological : forall u l G l1 d l2 e x, wf_universe u = true -> mkgroup u l = GOk G ->
+  gnames G = l1 ++ d :: l2 -> find_elem u d = Some e -> In x (deps e) -> x <> d -> In x l1.
+Proof. exact names_topological. Qed.
+Print Assumptions names_topological.
+
+(* ---- lattice: closed sets are closed under union and intersection, so | and & are the set operations,
+        hence least upper / greatest lower bounds among groups ---- *)
+Theorem union_lub : forall u la lb a b, wf_universe u = true -> mkgroup u la = GOk a -> mkgroup u lb = GOk b ->
+  exists c, gunion u a b = GOk c
+    /\ (forall x, In x (gnames c) <-> In x (gnames a) \/ In x (gnames b))
+    /\ incl (gnames a) (gnames c) /\ incl (gnames b) (gnames c)
+    /\ (forall lh h, mkgroup u lh = GOk h -> incl (gnames a) (gnames h) -> incl (gnames b) (gnames h) -> incl (gnames c) (gnames h)).
+Proof. exact union_lub_p. Qed.
+Print Assumptions union_lub.
+
+Theorem inter_glb : forall u la lb a b, wf_universe u = true -> mkgroup u la = GOk a -> mkgroup u lb = GOk b ->
+  exists c, ginter u a b = GOk c
+    /\ (forall x, In x (gnames c) <-> In x (gnames a) /\ In x (gnames b))
+    /\ incl (gnames c) (gnames a) /\ incl (gnames c) (gnames b)
+    /\ (forall lh h, mkgroup u lh = GOk h -> incl (gnames h) (gnames a) -> incl (gnames h) (gnames b) -> incl (gnames h) (gnames c)).
+Proof. exact inter_glb_p. Qed.
+Print Assumptions inter_glb.
+
+(* ---- ==, hash, <=, isdisjoint agree with the name sets ---- *)
+Theorem eq_agree : forall u la lb a b, mkgroup u la = GOk a -> mkgroup u lb = GOk b ->
+  (geqb a b = true <-> same (gnames a) (gnames b)) /\ (same (gnames a) (gnames b) <-> a = b).
+Proof. exact eq_agree_p. Qed.
+Print Assumptions eq_agree.
+
+(* the hashed tuple (required) is equal exactly when the groups are: consistent with == and collision-free *)
+Theorem hash_agree : forall u la lb a b, wf_universe u = true -> mkgroup u la = GOk a -> mkgroup u lb = GOk b ->
+  (ghash a = ghash b <-> gnames a = gnames b).
+Proof. exact hash_spec. Qed.
+Print Assumptions hash_agree.
+
+Theorem subset_agree : forall a b, gsubset a b = true <-> incl (gnames a) (gnames b).
+Proof. exact gsubset_spec. Qed.
+Print Assumptions subset_agree.
+
+Theorem disjoint_agree : forall a b, gdisjoint a b = true <-> forall x, In x (gnames a) -> ~ In x (gnames b).
+Proof. exact gdisjoint_spec. Qed.
+Print Assumptions disjoint_agree.
+
+(* ---- the shipped universes (regenerated): finite domains decided by computation ---- *)
+(* every shipped YAML builds (model of DimensionConstructionBuilder) into a well-formed universe whose
+   dependencies are all dimensions *)
 Theorem shipped_wf : forallb builds_wf shipped_raw = true.
-Proof. vm_compute. reflexivity. Qed.
+Proof. exact shipped_wf_p. Qed.
 Print Assumptions shipped_wf.
+
+Theorem shipped_universes_wf : forallb wf_universe shipped_universes = true.
+Proof. exact shipped_universes_wf_p. Qed.
+Print Assumptions shipped_universes_wf.
+
+Theorem current_universe_is_built_and_wf : build raw_current = Some u_current /\ wf_universe u_current = true.
+Proof. exact (conj current_is_built_p current_wf_p). Qed.
+Print Assumptions current_universe_is_built_and_wf.
+
+(* lookup_order, for EVERY subset of the non-skypix dimensions of the current universe (bound: at most 2^16
+   subsets; 2^13 today): returns (no endless loop), is a permutation of the group's elements, lists every
+   element after its required dimensions and every implied dimension after some member that implies it *)
+Theorem lookup_order_bound : Nat.leb (length (nonskypix_dimension_names u_current)) 16 = true.
+Proof. exact lookup_bound_p. Qed.
+Print Assumptions lookup_order_bound.
+
+Theorem lookup_order_ok_current :
+  forallb (group_okb u_current lookup_okb) (all_subsets (nonskypix_dimension_names u_current)) = true.
+Proof. exact lookup_ok_current_p. Qed.
+Print Assumptions lookup_order_ok_current.
+
+Theorem lookup_order_ok_current_forall : forall l,
+  In l (all_subsets (nonskypix_dimension_names u_current)) ->
+  exists g, mkgroup u_current l = GOk g /\ lookup_okb u_current g = true.
+Proof. exact lookup_ok_current_forall_p. Qed.
+Print Assumptions lookup_order_ok_current_forall.
+
+Theorem all_subsets_complete : forall (l s : list string),
+  (exists f : string -> bool, s = filter f l) -> In s (all_subsets l).
+Proof. exact all_subsets_complete. Qed.
+Print Assumptions all_subsets_complete.
+
+(* the docstring's stronger reading ("when A implies B, A appears first", for EVERY implying member) is false:
+   {exposure, visit} lists physical_filter (implied by both) before visit *)
+Theorem lookup_order_strict_refuted :
+  exists l, incl l (nonskypix_dimension_names u_current) /\ group_okb u_current lookup_strictb l = false.
+Proof. exact lookup_strict_refuted_p. Qed.
+Print Assumptions lookup_order_strict_refuted.
+
+(* ---- non-vacuity: the hypotheses are satisfiable by the real universe and a real group ---- *)
+Example wf_current : wf_universe u_current = true.
+Proof. exact current_wf_p. Qed.
+
+Example group_visit_detector_tract :
+  exists g, mkgroup u_current ["visit"; "detector"; "tract"] = GOk g
+    /\ grequired g = ["instrument"; "skymap"; "detector"; "tract"; "visit"]
+    /\ gimplied g = ["band"; "day_obs"; "physical_filter"].
+Proof. exact example_group_p. Qed.
